@@ -178,7 +178,7 @@ func (r *router) AttachClient(client wamp.Peer, transportDetails wamp.Dict) erro
 	// Lookup or create realm to attach to.
 	var realm *realm
 	sync := make(chan error)
-	r.actionChan <- func() {
+	submitted := r.submit(func() {
 		if r.closed {
 			sendAbort(wamp.ErrSystemShutdown, nil)
 			sync <- errors.New("router is closing, not accepting new clients")
@@ -211,6 +211,10 @@ func (r *router) AttachClient(client wamp.Peer, transportDetails wamp.Dict) erro
 			r.log.Println("Auto-added realm:", hello.Realm)
 		}
 		sync <- nil
+	})
+	if !submitted {
+		sendAbort(wamp.ErrSystemShutdown, nil)
+		return errRouterClosed
 	}
 	err = <-sync
 	if err != nil {
@@ -304,7 +308,9 @@ func (r *router) Close() {
 			close(done)
 		}
 		<-done
-		close(r.actionChan)
+		// The action channel is not closed, since Attach, AddRealm and
+		// RemoveRealm may still be called; run() exits after the action that
+		// set r.closed, and submit() fails from then on.
 		if r.stopMemStats != nil {
 			close(r.stopMemStats)
 			<-r.memStatsStopped
@@ -318,9 +324,11 @@ func (r *router) Close() {
 func (r *router) AddRealm(config *RealmConfig) error {
 	var err error
 	sync := make(chan struct{})
-	r.actionChan <- func() {
+	if !r.submit(func() {
 		_, err = r.addRealm(config)
 		close(sync)
+	}) {
+		return errRouterClosed
 	}
 	<-sync
 	return err
@@ -344,7 +352,7 @@ func (r *router) RemoveRealm(name wamp.URI) {
 	var realm *realm
 	var ok bool
 	sync := make(chan struct{})
-	r.actionChan <- func() {
+	if !r.submit(func() {
 		if realm, ok = r.realms[name]; ok {
 			// if found, go ahead and remove the realm from the router to
 			// prevent new clients from joining it.
@@ -352,6 +360,8 @@ func (r *router) RemoveRealm(name wamp.URI) {
 			r.log.Printf("Removed realm: %s", name)
 		}
 		close(sync)
+	}) {
+		return // router closed: all realms are already removed
 	}
 	// wait until the atomic func has completed.
 	<-sync
@@ -388,10 +398,26 @@ func (r *router) addRealm(config *RealmConfig) (*realm, error) {
 	return realm, nil
 }
 
+var errRouterClosed = errors.New("router is closed")
+
+// submit hands an action to the router's goroutine. It returns false if the
+// router has been closed, in which case the action is not run.
+func (r *router) submit(action func()) bool {
+	select {
+	case r.actionChan <- action:
+		return true
+	case <-r.stopped:
+		return false
+	}
+}
+
 // Single goroutine used to safely access router data.
 func (r *router) run() {
 	for action := range r.actionChan {
 		action()
+		if r.closed {
+			break
+		}
 	}
 	close(r.stopped)
 }
